@@ -462,7 +462,13 @@ class Interp:
                 d = func.param_default(p)
                 if d is None:
                     raise Uninterpretable(f"missing argument {p} for {func.qual}")
-                env[p] = self.eval(d, {}, func, depth)
+                denv = {}
+                if func.cls is not None:
+                    # a default is evaluated in the class body's scope: names of class-level values defined there are visible
+                    for nm_ in {x.id for x in ast.walk(d) if isinstance(x, ast.Name)}:
+                        if nm_ in func.cls.attrs:
+                            denv[nm_] = self.static_value(func.cls.attrs[nm_], func, depth)
+                env[p] = self.eval(d, denv, func, depth)
         self.trace_calls.append(func.qual)
         is_gen = getattr(func, "_is_gen", None)
         if is_gen is None:
@@ -1135,10 +1141,14 @@ class Interp:
             if mod is not None and n.id in mod.imports and mod.imports[n.id][0] in ("itertools", "functools") \
                     and mod.imports[n.id][1] in ("islice", "chain", "reduce", "count", "zip_longest", "groupby", "repeat"):
                 return ("builtin", mod.imports[n.id][1])
-            if mod is not None and n.id in mod.imports and mod.imports[n.id][0] == "bisect" and mod.imports[n.id][1]:
-                import bisect as _bisect
-                if hasattr(_bisect, mod.imports[n.id][1]):
-                    return ("native", getattr(_bisect, mod.imports[n.id][1]))
+            if mod is not None and n.id in mod.imports and mod.imports[n.id][0] in ("bisect", "heapq", "textwrap", "math", "string") and mod.imports[n.id][1]:
+                import importlib as _importlib
+                _lib = _importlib.import_module(mod.imports[n.id][0])
+                if hasattr(_lib, mod.imports[n.id][1]):
+                    val_ = getattr(_lib, mod.imports[n.id][1])
+                    return ("native", val_) if callable(val_) else val_
+            if mod is not None and n.id in mod.imports and mod.imports[n.id][0] in ("bisect", "heapq", "textwrap") and mod.imports[n.id][1] is None:
+                return ("pymodule", mod.imports[n.id][0])
             if mod is not None and n.id in mod.imports and mod.imports[n.id][0] in ("itertools", "operator") and mod.imports[n.id][1]:
                 # any other itertools / operator function: the real one, applied to interpreter values (callable arguments are
                 # wrapped by the native-call path)
@@ -1515,8 +1525,18 @@ class Interp:
                 if n.func.attr in ("__init__",):
                     return None
                 raise Uninterpretable(f"super().{n.func.attr} not found from {func.qual}")
-            args = [self.eval(a, env, func, depth) for a in n.args]
-            kwargs = {k.arg: self.eval(k.value, env, func, depth) for k in n.keywords if k.arg}
+            args = []
+            for a in n.args:
+                if isinstance(a, ast.Starred):
+                    args.extend(self.iterate(self.eval(a.value, env, func, depth)))
+                else:
+                    args.append(self.eval(a, env, func, depth))
+            kwargs = {}
+            for k in n.keywords:
+                if k.arg:
+                    kwargs[k.arg] = self.eval(k.value, env, func, depth)
+                else:
+                    kwargs.update(self.eval(k.value, env, func, depth))
             return self.call_func(target, args, kwargs, selfv, depth + 1)
         if nm == "super":
             raise Uninterpretable("bare super()")
